@@ -23,6 +23,7 @@ def payFields : Pay → Option (Str × List Item)
   | .http n => some (b!"cockroach.errors.exthttp.EncodedHTTPCode", optVi 1 n)
   | .grpc n => some (b!"cockroach.errors.extgrpc.EncodedGrpcCode", optVi 1 n)
   | .testErr => some (b!"cockroach.errorspb.TestError", [])
+  | .status c m 0 => some (b!"google.rpc.Status", optVi 1 c ++ optLd 2 m)   -- a status without details
   | _ => none
 
 /-- `types.MarshalAny` followed by `(*Any).Marshal` -/
@@ -80,6 +81,7 @@ def desPayNamed (name : Str) (val : Bytes) : Option Pay :=
     else if name = b!"cockroach.errors.exthttp.EncodedHTTPCode" then some (.http (lastVi xs 1))
     else if name = b!"cockroach.errors.extgrpc.EncodedGrpcCode" then some (.grpc (lastVi xs 1))
     else if name = b!"cockroach.errorspb.TestError" then some .testErr
+    else if name = b!"google.rpc.Status" then some (.status (lastVi xs 1) ((lastLd xs 2).getD []) (allLd xs 3).length)
     else none
 
 /-- every length and number of the payload fits 64 bits -/
@@ -91,6 +93,7 @@ def PaySmall : Pay → Prop
   | .tags l => ∀ kv ∈ l, kv.1.length < 2 ^ 62 ∧ kv.2.length < 2 ^ 62
   | .http n => n < 2 ^ 64
   | .grpc n => n < 2 ^ 64
+  | .status c m _ => c < 2 ^ 64 ∧ m.length < 2 ^ 64
   | _ => True
 
 theorem parse_own (xs : List Item) (h : ∀ x ∈ xs, x.ok) : parseItems (serItems xs).length (serItems xs) = some xs :=
@@ -136,6 +139,18 @@ theorem C_code_grpc (n : Nat) (h : n < 2 ^ 64) :
 
 theorem C_testErr : desPayNamed (b!"cockroach.errorspb.TestError") (serItems []) = some .testErr := by
   simp [desPayNamed, serItems, parseItems]
+
+theorem C_status (c : Nat) (m : Str) (hc : c < 2 ^ 64) (hm : m.length < 2 ^ 64) :
+    desPayNamed (b!"google.rpc.Status") (serItems (optVi 1 c ++ optLd 2 m)) = some (.status c m 0) := by
+  have hok : ∀ x ∈ optVi 1 c ++ optLd 2 m, x.ok := by
+    intro x hx
+    simp only [List.mem_append] at hx
+    rcases hx with hx | hx
+    · exact optVi_ok 1 c (by decide) (by decide) hc x hx
+    · exact optLd_ok 2 m (by decide) (by decide) hm x hx
+  unfold desPayNamed
+  rw [parse_own _ hok]
+  by_cases h0 : c = 0 <;> by_cases h1 : m = [] <;> simp [optVi, optLd, lastVi, lastLd, allLd, h0, h1]
 
 theorem C_errno (n : Nat) (arch : Str) (p e ne t tmp : Bool) (hn : n < 2 ^ 64) (ha : arch.length < 2 ^ 64) :
     desPayNamed (b!"cockroach.errorspb.ErrnoPayload")
@@ -246,7 +261,9 @@ theorem desPay_serPay : (p : Pay) → (name : Str) → (fields : List Item) → 
   | .grpc n, _, _, hf, hs => by simp only [payFields, Option.some.injEq, Prod.mk.injEq] at hf; obtain ⟨rfl, rfl⟩ := hf; exact C_code_grpc n hs
   | .testErr, _, _, hf, _ => by simp only [payFields, Option.some.injEq, Prod.mk.injEq] at hf; obtain ⟨rfl, rfl⟩ := hf; exact C_testErr
   | .none, _, _, hf, _ => by simp [payFields] at hf
-  | .status .., _, _, hf, _ => by simp [payFields] at hf
+  | .status c m 0, _, _, hf, hs => by
+    simp only [payFields, Option.some.injEq, Prod.mk.injEq] at hf; obtain ⟨rfl, rfl⟩ := hf; exact C_status c m hs.1 hs.2
+  | .status _ _ (_ + 1), _, _, hf, _ => by simp [payFields] at hf
   | .raw .., _, _, hf, _ => by simp [payFields] at hf
 
 end ErrModel.Proto
